@@ -144,6 +144,15 @@ func genSchedOps(r *RNG, g *Gen, pl *Plan, task int) []Op {
 	return ops
 }
 
+// freshWord returns n random lower-case letters (a word this process has very probably not seen).
+func freshWord(r *RNG, n int) string {
+	b := make([]byte, n)
+	for i := range b {
+		b[i] = byte('a' + r.Intn(26))
+	}
+	return string(b)
+}
+
 // genThrashOps: every operation is a ParseRef / Parse on a shared parser with a base from the plan's
 // pool of distinct keys (see genSchedPlan).
 func genThrashOps(r *RNG, g *Gen, pl *Plan) []Op {
@@ -223,7 +232,7 @@ func genSchedPlan(master uint64, run int) Plan {
 		pl.Shared = append(pl.Shared, pre)
 		pl.SharedP = append(pl.SharedP, p)
 	}
-	thrash := false
+	thrash, crowd := false, false
 	switch r.Intn(8) {
 	case 0, 1, 2, 3:
 		g.setTheme() // tasks of this plan work on related inputs
@@ -237,10 +246,36 @@ func genSchedPlan(master uint64, run int) Plan {
 			g.themeURLs = append(g.themeURLs, g.pick(gSchemesSpecial[:5])+"://"+g.pick([]string{"h", "example.com", "a.b", "1.2.3.4", "x"})+g.pick([]string{"", ":81", ":8080"})+"/"+g.pick(corpusTokens)+g.pick([]string{"", "/", "/a/b", "?q", "/c?d#e"}))
 		}
 		thrash = true
+		if r.Chance(1, 2) {
+			// never-seen identifiers: schemes (and hosts) this process has not met, so that whatever
+			// the library interns, memoises or registers on first sight is being filled in by several
+			// tasks at once
+			g.themeURLs = nil
+			for i := 0; i < n; i++ {
+				g.themeURLs = append(g.themeURLs, freshWord(r, 5)+":"+g.pick([]string{"x", "//h/p", "/a/b", "//" + freshWord(r, 6) + ".example/"})+g.pick([]string{"", "?q", "#f"}))
+			}
+		}
+	case 5:
+		if r.Chance(1, 12) {
+			crowd = true
+		}
 	}
 	nt := r.Range(2, 4)
 	if thrash {
 		nt = r.Range(3, 4)
+	}
+	if crowd {
+		// a crowd: many tasks with one parse each, every one parked a few statements into its call,
+		// then all released - more calls in flight at once than any fixed-size pool or free-list expects
+		nt = []int{17, 33, 65, 66, 70, 129}[r.Intn(6)]
+		for t := 0; t < nt; t++ {
+			pl.Tasks = append(pl.Tasks, []Op{{K: "parse", P: r.Intn(len(pl.Parsers)), D: 1, A: QS("http://crowd" + strconv.Itoa(t) + ".example/some/path/" + strconv.Itoa(t) + "?q=" + strconv.Itoa(t) + "#frag" + strconv.Itoa(t))}})
+		}
+		pl.Strategy, pl.Order = "crowd", "concurrent-first"
+		pl.FpEvery = false
+		pl.ParkInCrit = false
+		pl.Procs = 4
+		return pl
 	}
 	for t := 0; t < nt; t++ {
 		if thrash {
@@ -280,6 +315,13 @@ func genSchedule(pl *Plan, steps [][]int64, hot [][]int64) []Quantum {
 	}
 	var q []Quantum
 	switch pl.Strategy {
+	case "crowd":
+		for t := 0; t < nt; t++ {
+			q = append(q, Quantum{T: t, N: int64(r.Range(20, 400))})
+		}
+		for t := nt - 1; t >= 0; t-- {
+			q = append(q, Quantum{T: t, Kind: rt.KTaskEnd})
+		}
 	case "syncstall", "stallentry":
 		// park one task inside its k-th operation - at its j-th statement that uses a synchronisation
 		// primitive (race-detector-silent logic errors live between such statements), or a few
@@ -681,7 +723,10 @@ func lateInit(changed []string, res *SchedResult) []string {
 }
 
 // runSched executes one schedsim plan: twin (alone) run, then the scheduled concurrent run.
-func runSched(pl *Plan, atomic bool, keepTrace bool) (res SchedResult) {
+// refWant, when not nil, is what the plan's operations returned in the reference server: a separate
+// process that only ever executes operations sequentially ("run alone" in the purest sense: its
+// process-wide state cannot have been touched by a concurrent call).
+func runSched(pl *Plan, atomic bool, keepTrace bool, refWant [][]string) (res SchedResult) {
 	res.Faults = map[string]int{}
 	nt := len(pl.Tasks)
 	if pl.Procs > 0 && runtime.GOMAXPROCS(0) != pl.Procs {
@@ -751,11 +796,12 @@ func runSched(pl *Plan, atomic bool, keepTrace bool) (res SchedResult) {
 	tasks := make([]*rt.Task, nt)
 	worlds := make([]*World, nt)
 	for t := range tasks {
-		tasks[t] = &rt.Task{ID: t, Resume: make(chan struct{}), OpLimit: 50_000_000}
+		tasks[t] = &rt.Task{ID: t, Resume: make(chan struct{}), Ev: make(chan int), OpLimit: 50_000_000}
 		worlds[t] = sw.taskWorld(pl)
 		got[t] = make([]string, len(pl.Tasks[t]))
 	}
 	done := make(chan struct{}, nt)
+	rt.ResetTasks(tasks)
 	rt.Mode = 2
 	for t := range tasks {
 		t := t
@@ -789,8 +835,24 @@ func runSched(pl *Plan, atomic bool, keepTrace bool) (res SchedResult) {
 	}
 	rt.Mode = 1
 	res.ILHash = il.h
-	if concFirst {
+	if concFirst && refWant == nil {
 		reference()
+	}
+	if refWant != nil {
+		if !concFirst {
+			// the in-process sequential run (made before the scheduled one) must agree with the
+			// pristine process: if it does not, an earlier concurrent run has left this process's
+			// state poisoned
+			for t := range want {
+				for k := range want[t] {
+					if t < len(refWant) && k < len(refWant[t]) && want[t][k] != refWant[t][k] {
+						viol("C14.result", "task", fmt.Sprint(t), "op", fmt.Sprintf("%d: %s", k, pl.Tasks[t][k].String()), "sequential-in-this-process", q(clip(want[t][k], 300)), "alone", q(clip(refWant[t][k], 300)),
+							"why", "a sequential call in a process that ran concurrent calls before returns something else than in a process that only ever ran sequential calls: process-wide state was corrupted earlier")
+					}
+				}
+			}
+		}
+		want = refWant
 	}
 	// ---- oracles after the join
 	if d := fp0.Diff(fpObjects(sw.names, sw.objs)); len(d) > 0 {
@@ -863,15 +925,44 @@ func schedLoop(pl *Plan, sched []Quantum, tasks []*rt.Task, sw *schedWorld, fp0 
 				continue
 			}
 		} else {
+			// schedule exhausted: the lowest-numbered live task that is not blocked inside the library,
+			// to completion; if every live task is blocked, the lowest of those (we then wait for it)
 			q = Quantum{T: -1, Kind: rt.KTaskEnd}
 			for t, tk := range tasks {
-				if !tk.Done {
+				if !tk.Done && !tk.Detached {
 					q.T = t
 					break
 				}
 			}
+			if q.T < 0 {
+				for t, tk := range tasks {
+					if !tk.Done {
+						q.T = t
+						break
+					}
+				}
+			}
 		}
 		tk := tasks[q.T]
+		if tk.Detached {
+			// the task was blocked inside the library when we last waited for it; has it come back?
+			ev, ok := tryEvent(tk, detachedCount(tasks) == liveCount(tasks), timer)
+			if !ok {
+				if detachedCount(tasks) == liveCount(tasks) {
+					res.Blocked = true // every live task is blocked: a deadlock we cannot resolve
+					return
+				}
+				continue
+			}
+			tk.Detached = false
+			rt.SlowIdent = detachedCount(tasks) > 0
+			res.Faults["blocked task came back (library-owned lock, wait group, channel)"]++
+			if ev == rt.EvFinish {
+				live--
+				il.add("t" + strconv.Itoa(q.T) + ".end")
+			}
+			continue // it is parked at a yield point now; later quanta run it as usual
+		}
 		if lastTask >= 0 && lastTask != q.T {
 			res.Switches++
 			if tasks[lastTask].InOp && !tasks[lastTask].Done {
@@ -898,12 +989,23 @@ func schedLoop(pl *Plan, sched []Quantum, tasks []*rt.Task, sw *schedWorld, fp0 
 				default:
 				}
 			}
-			timer.Reset(3 * time.Second)
+			timer.Reset(300 * time.Millisecond)
+			detached := false
 			select {
-			case ev = <-rt.ToSched:
+			case ev = <-tk.Ev:
 			case <-timer.C:
-				res.Blocked = true
-				return
+				// The task does not come back: it waits inside the library for something another task
+				// must do (a lock held by a parked task, a wait group, a channel). Leave it there
+				// ("detached"), go on with the schedule; it parks at its next yield point as soon as it
+				// is released. While a task is detached the runtime identifies callers by goroutine id.
+				detached = true
+			}
+			if detached {
+				tk.Detached = true
+				rt.SlowIdent = true
+				res.Faults["task blocked inside the library (detached)"]++
+				il.add("t" + strconv.Itoa(q.T) + ".blocked")
+				break
 			}
 			if ev == rt.EvOpEnd {
 				il.add("t" + strconv.Itoa(q.T) + ".op")
@@ -937,6 +1039,54 @@ func schedLoop(pl *Plan, sched []Quantum, tasks []*rt.Task, sw *schedWorld, fp0 
 	}
 }
 
+func detachedCount(tasks []*rt.Task) int {
+	n := 0
+	for _, t := range tasks {
+		if t.Detached && !t.Done {
+			n++
+		}
+	}
+	return n
+}
+
+func liveCount(tasks []*rt.Task) int {
+	n := 0
+	for _, t := range tasks {
+		if !t.Done {
+			n++
+		}
+	}
+	return n
+}
+
+// tryEvent polls a detached task: has it reached a yield point meanwhile? If patient, wait up to 3 s.
+//
+//go:norace
+func tryEvent(tk *rt.Task, patient bool, timer *time.Timer) (int, bool) {
+	select {
+	case ev := <-tk.Ev:
+		return ev, true
+	default:
+	}
+	d := 2 * time.Millisecond
+	if patient {
+		d = 3 * time.Second
+	}
+	if !timer.Stop() {
+		select {
+		case <-timer.C:
+		default:
+		}
+	}
+	timer.Reset(d)
+	select {
+	case ev := <-tk.Ev:
+		return ev, true
+	case <-timer.C:
+		return 0, false
+	}
+}
+
 // ---------------------------------------------------------------- worker
 
 func schedInit() {
@@ -949,8 +1099,88 @@ func schedInit() {
 	globalsLocked = lockedPackages()
 }
 
+// ---------------------------------------------------------------- reference server
+
+// refClient talks to a child process (-mode refserver) that executes every plan's operations
+// sequentially on a twin world and returns what each returned. The server sees the same plans in
+// the same order as its client, so it is deterministic; because it never runs anything
+// concurrently, its process-wide state (caches, interning tables) is what sequential use produces.
+type refClient struct {
+	cmd *exec.Cmd
+	enc *json.Encoder
+	dec *json.Decoder
+}
+
+func startRef() *refClient {
+	cmd := exec.Command(os.Args[0], "-mode", "refserver", "-verif", *fVerif)
+	cmd.Env = append(os.Environ(), "GORACE=halt_on_error=0")
+	in, err := cmd.StdinPipe()
+	if err != nil {
+		infra("refserver: %v", err)
+	}
+	out, err := cmd.StdoutPipe()
+	if err != nil {
+		infra("refserver: %v", err)
+	}
+	cmd.Stderr = os.Stderr
+	if err := cmd.Start(); err != nil {
+		infra("refserver: %v", err)
+	}
+	return &refClient{cmd: cmd, enc: json.NewEncoder(in), dec: json.NewDecoder(out)}
+}
+
+func (r *refClient) Want(pl *Plan) [][]string {
+	if r == nil {
+		return nil
+	}
+	if err := r.enc.Encode(pl); err != nil {
+		infra("refserver: send: %v", err)
+	}
+	var wq [][]QS // Go-quoted in transit: observations may hold invalid UTF-8, which JSON would replace
+	if err := r.dec.Decode(&wq); err != nil {
+		infra("refserver: receive: %v", err)
+	}
+	want := make([][]string, len(wq))
+	for t := range wq {
+		for _, x := range wq[t] {
+			want[t] = append(want[t], string(x))
+		}
+	}
+	return want
+}
+
+// refServer is the -mode refserver loop.
+func refServer() {
+	schedInit()
+	dec := json.NewDecoder(os.Stdin)
+	enc := json.NewEncoder(os.Stdout)
+	for {
+		var pl Plan
+		if err := dec.Decode(&pl); err != nil {
+			return
+		}
+		rt.Mode = 1
+		rt.Limit = 0
+		twin := buildSchedWorld(&pl)
+		want := make([][]QS, len(pl.Tasks))
+		for t := range pl.Tasks {
+			w := twin.taskWorld(&pl)
+			for k, op := range pl.Tasks[t] {
+				rt.Count = 0
+				want[t] = append(want[t], QS(twin.execTaskOp(w, k, op)))
+			}
+		}
+		if err := enc.Encode(want); err != nil {
+			return
+		}
+	}
+}
+
+var ref *refClient
+
 func schedWorker() {
 	schedInit()
+	ref = startRef()
 	seed := masterSeed()
 	out := &WorkerOut{Prop: "C14", Faults: map[string]int{}, Known: map[string]int{}, Aborted: map[string]int{}, Extra: map[string]int64{}}
 	var hashes []uint64
@@ -962,7 +1192,7 @@ func schedWorker() {
 			_ = os.WriteFile(prog, []byte(fmt.Sprint(i)), 0o644)
 		}
 		pl := genSchedPlan(seed, i)
-		res := runSched(&pl, *fAtomic || i == *fAtomic1, false)
+		res := runSched(&pl, *fAtomic || i == *fAtomic1, false, ref.Want(&pl))
 		if res.Blocked {
 			out.Blocked++
 			out.BlockedRun = i
@@ -1009,7 +1239,7 @@ func schedWorker() {
 		}
 		if (i/(*fStride))%25 == 0 {
 			pl2 := genSchedPlan(seed, i)
-			res2 := runSched(&pl2, *fAtomic || i == *fAtomic1, false)
+			res2 := runSched(&pl2, *fAtomic || i == *fAtomic1, false, ref.Want(&pl2))
 			if res2.ILHash != res.ILHash || res2.ResHash != res.ResHash {
 				out.Mismatch = append(out.Mismatch, i) // see worldWorker
 			} else {
@@ -1075,6 +1305,7 @@ type oneResult struct {
 // schedOne (mode "schedone"): run the plan in -file, print the SchedResult as JSON.
 func schedOne() {
 	schedInit()
+	ref = startRef()
 	data, err := os.ReadFile(*fFile)
 	if err != nil {
 		infra("%v", err)
@@ -1086,13 +1317,13 @@ func schedOne() {
 	// prelude: what the reporting worker process had executed before (mirrors schedWorker exactly)
 	for i := *fPreFrom; i >= 0 && i < *fPreTo; i++ {
 		p0 := genSchedPlan(masterSeed(), i)
-		runSched(&p0, false, false)
+		runSched(&p0, false, false, ref.Want(&p0))
 		if i%25 == 0 {
 			p1 := genSchedPlan(masterSeed(), i)
-			runSched(&p1, false, false)
+			runSched(&p1, false, false, ref.Want(&p1))
 		}
 	}
-	res := runSched(&pl, *fAtomic, true)
+	res := runSched(&pl, *fAtomic, true, ref.Want(&pl))
 	b, _ := json.Marshal(res)
 	if err := os.WriteFile(*fOut, b, 0o644); err != nil {
 		infra("%v", err)
